@@ -160,9 +160,16 @@ def check(sc, obs):
             probes["flow_not_evaluated"] += 1
             continue
         expect_fail = (not flow_good) and not insecure
-        if crash is not None:
-            if expect_fail:
+        fcrash = tls_a.flow_crash(obs, i)
+        if fcrash is not None:
+            if expect_fail and not crash_in_rejection_path:
+                # a crash of the proxy while it handles a rejected upstream chain is not "the connection
+                # fails with an error"; crashes of connections without a rejection are somebody else's property
                 crash_in_rejection_path = True
+                viol.append({"class": "crash_after_rejection",
+                             "key": {"where": fcrash["where"], "exc": fcrash["exc"], "mode": mode,
+                                     "strategy": strategy},
+                             "msg": f"flow {i}: upstream chain rejected ({flow_reason}), then: {fcrash['msg']}"})
             continue
         http_mode = mode != "reverse_tls"
         if expect_fail:
@@ -185,7 +192,8 @@ def check(sc, obs):
                     missing.append("client_got_data")
             if missing:
                 viol.append({"class": "no_error_outcome",
-                             "key": {"mode": mode, "strategy": strategy, "missing": ",".join(missing)},
+                             "key": {"mode": mode, "strategy": strategy, "missing": ",".join(missing),
+                                     "eager_task_factory": bool(sc.get("eager_tasks"))},
                              "msg": f"flow {i}: upstream chain rejected ({flow_reason}) but {missing}; hooks={names}, "
                                     f"client status={rec['status']} reply={rec['reply']!r} timeout={rec['timeout']}"})
         else:
@@ -206,12 +214,6 @@ def check(sc, obs):
                                     f"{bad}; hooks={names}"})
     if crash is not None:
         probes["crash_any"] += 1
-    if crash is not None and crash_in_rejection_path:
-        # a crash of the proxy while it handles a rejected upstream chain is not "the connection fails
-        # with an error"; crashes in runs without a rejection are somebody else's property
-        viol.append({"class": "crash_after_rejection",
-                     "key": {"where": crash["where"], "exc": crash["exc"], "mode": mode, "strategy": strategy},
-                     "msg": crash["msg"]})
     return viol, probes, faults, judged > 0
 
 
